@@ -91,103 +91,144 @@ def _subst_name(expr, name, const):
     return S().visit(copy.deepcopy(expr))
 
 
+def concat_parts(e):
+    """Operands of a string concatenation in any spelling: ``a + b``, ``'%s%s' % (a, b)``, ``'{}{}'.format(a, b)``,
+    ``f'{a}{b}'``, ``''.join([a, b])`` -> [a, b]; None when ``e`` is not a pure concatenation."""
+    if isinstance(e, ast.BinOp) and isinstance(e.op, ast.Add):
+        l, r = concat_parts(e.left), concat_parts(e.right)
+        return (l if l is not None else [e.left]) + (r if r is not None else [e.right])
+    if isinstance(e, ast.BinOp) and isinstance(e.op, ast.Mod) and isinstance(e.left, ast.Constant) and isinstance(e.left.value, str):
+        args = e.right.elts if isinstance(e.right, ast.Tuple) else [e.right]
+        if e.left.value == '%s' * len(args) and args:
+            return list(args)
+        return None
+    if isinstance(e, ast.Call) and isinstance(e.func, ast.Attribute) and isinstance(e.func.value, ast.Constant) and isinstance(e.func.value.value, str):
+        if e.func.attr == 'format' and not e.keywords and e.args and e.func.value.value in ('{}' * len(e.args), ''.join('{%d}' % i for i in range(len(e.args)))):
+            return list(e.args)
+        if e.func.attr == 'join' and e.func.value.value == '' and len(e.args) == 1 and isinstance(e.args[0], (ast.List, ast.Tuple)) and not e.keywords:
+            return list(e.args[0].elts)
+        return None
+    if isinstance(e, ast.JoinedStr):
+        if e.values and all(isinstance(v, ast.FormattedValue) and v.conversion == -1 and v.format_spec is None for v in e.values):
+            return [v.value for v in e.values]
+        return None
+    return None
+
+
 class KwDict(object):
     """Layer model of a keyword dict built by straight-line code before it is passed on with ``**``:
     bottom -> top list of ('caller',) / ('src', text) / ('key', name, value expr, stmt); ``setdefault`` and
-    ``if k not in d: d[k] = v`` go to the bottom (an existing entry wins), ``d[k] = v`` / ``update`` / ``dict(d, k=v)`` on top."""
+    ``if k not in d: d[k] = v`` go to the bottom (an existing entry wins), ``d[k] = v`` / ``update`` / ``dict(d, k=v)`` on top.
+    Every dict-valued local of the function is tracked (the ** parameter starts as the caller's keywords), so
+    ``opts = dict(kwargs, prefix=p)`` after ``kwargs.setdefault(..)`` carries the defaults along."""
 
     def __init__(self, fi, fl, var, use_stmts):
         self.fi, self.fl, self.var = fi, fl, var
-        self.layers = []
         self.stmts = []
         kwp = _kwarg_name(fi)
-        if var == kwp:
-            self.layers.append(('caller',))
-        self._build(fi.node.body, kwp)
+        self.env = {}
+        if kwp is not None:
+            self.env[kwp] = [('caller',)]
+        self._build(fi.node.body)
+        if var not in self.env:
+            raise AnalysisError('%s: %s is not a dict built in this function' % (fi.qualname, var))
+        self.layers = self.env[var]
         cfg = fl.cfg
         for st in self.stmts:
             for u in use_stmts:
                 if not cfg.must_pass(cfg.nodes_of(st), cfg.entry, cfg.nodes_of(u)):
                     raise AnalysisError('%s: keyword dict %s is modified conditionally (%s)' % (fi.qualname, var, short(st, 60)))
-            loops = [l for l in stmts_of(fi.node) if isinstance(l, (ast.For, ast.While)) and st in stmts_of(l) and l is not st
-                     and not getattr(l, '_vt_expanded', False)]
+            loops = [l for l in stmts_of(fi.node) if isinstance(l, (ast.For, ast.While)) and st in stmts_of(l) and l is not st]
             if loops:
                 raise AnalysisError('%s: keyword dict %s is modified inside a loop' % (fi.qualname, var))
 
-    def _from_expr(self, e, kwp):
+    def _from_expr(self, e):
         out = []
         for l in layers_.layers_of_expr(e):
             if l.kind == 'literal':
                 for k in l.keys:
                     out.append(('key', k, l.values[k], l.node))
-            elif l.text == kwp:
-                out.append(('caller',))
-            elif isinstance(l.node, (ast.Dict,)) and not l.node.keys:
-                pass
+            elif l.text in self.env:
+                out.extend(self.env[l.text])
             else:
                 out.append(('src', l.text))
         return out
 
-    def _default_stmt(self, st, var):
-        """``d.setdefault(K, V)`` / ``if K not in d: d[K] = V`` -> (K expr, V expr) or None."""
+    def _default_stmt(self, st):
+        """``d.setdefault(K, V)`` / ``if K not in d: d[K] = V`` -> (d, K expr, V expr) or None."""
         if isinstance(st, ast.Expr) and isinstance(st.value, ast.Call) and isinstance(st.value.func, ast.Attribute) and \
-                st.value.func.attr == 'setdefault' and norm(st.value.func.value) == var and len(st.value.args) == 2:
-            return st.value.args[0], st.value.args[1]
+                st.value.func.attr == 'setdefault' and norm(st.value.func.value) in self.env and len(st.value.args) == 2 and not st.value.keywords:
+            return norm(st.value.func.value), st.value.args[0], st.value.args[1]
         if isinstance(st, ast.If) and not st.orelse and len(st.body) == 1 and isinstance(st.test, ast.Compare) and len(st.test.ops) == 1 and \
-                isinstance(st.test.ops[0], ast.NotIn) and norm(st.test.comparators[0]) == var:
+                isinstance(st.test.ops[0], ast.NotIn) and norm(st.test.comparators[0]) in self.env:
+            var = norm(st.test.comparators[0])
             b = st.body[0]
             if isinstance(b, ast.Assign) and len(b.targets) == 1 and isinstance(b.targets[0], ast.Subscript) and \
                     norm(b.targets[0].value) == var and norm(b.targets[0].slice) == norm(st.test.left):
-                return st.test.left, b.value
+                return var, st.test.left, b.value
         return None
 
-    def _build(self, body, kwp):
-        var = self.var
+    def _build(self, body):
+        q = self.fi.qualname
         for st in body:
-            d = self._default_stmt(st, var)
+            d = self._default_stmt(st)
             if d is not None:
-                k, v = d
+                var, k, v = d
                 if not isinstance(k, ast.Constant):
-                    raise AnalysisError('%s: computed key %s in keyword dict %s' % (self.fi.qualname, norm(k), var))
-                self.layers.insert(0, ('key', k.value, v, st))
+                    raise AnalysisError('%s: computed key %s in keyword dict %s' % (q, norm(k), var))
+                self.env[var].insert(0, ('key', k.value, v, st))
                 self.stmts.append(st)
                 continue
             if isinstance(st, ast.For) and isinstance(st.target, ast.Name) and isinstance(st.iter, (ast.Tuple, ast.List)) and \
                     all(isinstance(e, ast.Constant) for e in st.iter.elts) and len(st.body) == 1 and not st.orelse:
-                d = self._default_stmt(st.body[0], var)
-                if d is not None and norm(d[0]) == st.target.id:
+                d = self._default_stmt(st.body[0])
+                if d is not None and norm(d[1]) == st.target.id:
                     for e in st.iter.elts:
-                        self.layers.insert(0, ('key', e.value, _subst_name(d[1], st.target.id, e.value), st))
-                    st._vt_expanded = True
+                        self.env[d[0]].insert(0, ('key', e.value, _subst_name(d[2], st.target.id, e.value), st))
                     self.stmts.append(st)
                     continue
-            if isinstance(st, ast.Assign) and any(norm(t) == var for t in st.targets):
-                self.layers = self._from_expr(st.value, kwp)
-                self.stmts.append(st)
+            if isinstance(st, ast.Assign) and len(st.targets) == 1 and isinstance(st.targets[0], ast.Name):
+                t = st.targets[0].id
+                v = st.value
+                if isinstance(v, ast.Name) and v.id in self.env:
+                    self.env[t] = self.env[v.id]          # alias: the same dict object
+                    self.stmts.append(st)
+                    continue
+                if isinstance(v, ast.Dict) or (isinstance(v, ast.Call) and isinstance(v.func, ast.Name) and v.func.id == 'dict'):
+                    self.env[t] = self._from_expr(v)
+                    self.stmts.append(st)
+                    continue
+                if t in self.env:
+                    raise AnalysisError('%s: keyword dict %s re-bound to %s' % (q, t, short(v, 50)))
                 continue
-            if isinstance(st, ast.Assign) and len(st.targets) == 1 and isinstance(st.targets[0], ast.Subscript) and norm(st.targets[0].value) == var:
+            if isinstance(st, ast.Assign) and len(st.targets) == 1 and isinstance(st.targets[0], ast.Subscript) and norm(st.targets[0].value) in self.env:
                 k = st.targets[0].slice
                 if not isinstance(k, ast.Constant):
-                    raise AnalysisError('%s: computed key %s in keyword dict %s' % (self.fi.qualname, norm(k), var))
-                self.layers.append(('key', k.value, st.value, st))
+                    raise AnalysisError('%s: computed key %s in keyword dict %s' % (q, norm(k), norm(st.targets[0].value)))
+                self.env[norm(st.targets[0].value)].append(('key', k.value, st.value, st))
                 self.stmts.append(st)
                 continue
             if isinstance(st, ast.Expr) and isinstance(st.value, ast.Call) and isinstance(st.value.func, ast.Attribute) and \
-                    norm(st.value.func.value) == var and st.value.func.attr == 'update':
+                    norm(st.value.func.value) in self.env and st.value.func.attr == 'update':
                 c = st.value
+                lay = self.env[norm(c.func.value)]
                 for a in c.args:
-                    self.layers.extend(self._from_expr(a, kwp))
+                    lay.extend(self._from_expr(a))
                 for k in c.keywords:
                     if k.arg is None:
-                        self.layers.extend(self._from_expr(k.value, kwp))
+                        lay.extend(self._from_expr(k.value))
                     else:
-                        self.layers.append(('key', k.arg, k.value, st))
+                        lay.append(('key', k.arg, k.value, st))
                 self.stmts.append(st)
                 continue
-            # anything else that writes the dict is outside the model
-            for e in (effects_in(ast.Module(body=[st], type_ignores=[]), nested=False) if not isinstance(st, (ast.FunctionDef, ast.ClassDef)) else []):
-                if e.root == var:
-                    raise AnalysisError('%s: unmodelled write to keyword dict %s: %s' % (self.fi.qualname, var, short(e.node, 60)))
+            # anything else that writes a tracked dict is outside the model
+            if not isinstance(st, (ast.FunctionDef, ast.AsyncFunctionDef, ast.ClassDef)):
+                for e in effects_in(ast.Module(body=[st], type_ignores=[]), nested=False):
+                    if e.root in self.env:
+                        raise AnalysisError('%s: unmodelled write to keyword dict %s: %s' % (q, e.root, short(e.node, 60)))
+                for n in ast.walk(st):
+                    if isinstance(n, ast.Name) and isinstance(n.ctx, ast.Store) and n.id in self.env:
+                        raise AnalysisError('%s: keyword dict %s re-bound in %s' % (q, n.id, short(st, 50)))
 
     def lookup(self, key):
         """('forced', value, stmt): a literal entry above everything the caller passed; ('default', value, stmt): a literal
@@ -381,8 +422,8 @@ def _r10b(rep, app, route):
     kw = _kwarg_name(bi)
     pnames, ppops = popped_flags(bi, 'prefix')
     lf = _single_leaf(fl, 'self.pattern')
-    ok = lf is not None and isinstance(lf.value, ast.BinOp) and isinstance(lf.value.op, ast.Add) and \
-        _is_flag(norm(lf.value.left), pnames, ppops) and fl.text(lf.value.right, lf.stmt) == '%s.pattern' % ps[1]
+    parts = concat_parts(lf.value) if lf is not None else None
+    ok = parts is not None and len(parts) == 2 and _is_flag(norm(parts[0]), pnames, ppops) and fl.text(parts[1], lf.stmt) == '%s.pattern' % ps[1]
     rep.check('R10.b', fkey(bi, 'self.pattern'), ok, 'bound pattern = prefix + (already bound) inner pattern, so prefixes compose by depth' if ok else
               'BoundRoute.pattern is not prefix + route.pattern: %s' % (short(lf.value) if lf else None), route, lf.stmt if lf else bi.node)
     ok = len(ppops) == 1 and len(ppops[0].args) == 2 and isinstance(ppops[0].args[1], ast.Constant) and ppops[0].args[1].value == ''
